@@ -487,6 +487,35 @@ def trampoline_table(w):
         except (absint.Stuck, absint.Loop) as e:
             rows.append((second, {"stuck": str(e)}))
             continue
+        real = None
+        if second in ("user-arity", "self-arity") and not getattr(w.asp, "missing", False):
+            # the same with the code that applies a user procedure followed for real: an argument count checked while the parameters
+            # are bound (inside that code) counts as checked
+            sp1r = w.scheme_procedure(w.formals(["a"]), [], [w.sym("TAILCALL")])
+            sp2r = sp1r if second == "self-arity" else w.scheme_procedure(w.formals(["x"]), [], [w.sym("B2")])
+            p1r = w.user(sp1r, cenv1)
+            p2r = p1r if second == "self-arity" else w.user(sp2r, cenv2)
+            seen_tail = [0]
+
+            class _OnceR(dict):
+                def __contains__(self, k):
+                    return k in ("TAILCALL", "B2")
+
+                def __getitem__(self, k):
+                    if k == "B2":
+                        return ok(val)
+                    seen_tail[0] += 1
+                    return ok(tc) if seen_tail[0] == 1 else ok(val)
+            la2 = dict(leaf_answers)
+            la2["OP2"] = ok(w.procedure_value(p2r))
+            r2 = Run(w, follow=[w.asp.name], answers=la2, epc_answers=[ok([p2r, list(args2)])])
+            r2.tail_answers = _OnceR()
+            try:
+                res2 = r2.run(w.ap, [p1r, [Tok("arg", "V1")], caller])
+                tails2 = [e[1] for e in r2.events if e[0] in ("tail", "eval") and e[1] in ("TAILCALL", "B2")]
+                real = {"result": res2, "second_body_evaluated": tails2.count("B2") > 0 or tails2.count("TAILCALL") > 1}
+            except (absint.Stuck, absint.Loop) as e:
+                real = {"stuck": str(e)}
         au = [e for e in r.events if e[0] == "apply-user"]
         if getattr(w.asp, "missing", False):
             # one synthetic application record per frame created: (formals, defs, body, env, args) recovered from the events
@@ -505,7 +534,8 @@ def trampoline_table(w):
             etc = [("eval-tail-call", tc.fields[0].fields[0], operands2, e[2]) for e in ops_]
         rows.append((second, {"result": res, "user_applications": au, "builtin_applications": ab, "tail_call_evals": etc,
                               "recursive_applies": len([e for e in r.events if e[0] == "apply"]),
-                              "sp1": sp1, "sp2": sp2, "cenv1": cenv1, "cenv2": cenv2, "args2": args2, "tail_env": tail_env, "p2": p2}))
+                              "sp1": sp1, "sp2": sp2, "cenv1": cenv1, "cenv2": cenv2, "args2": args2, "tail_env": tail_env, "p2": p2,
+                              "real": real}))
     # THREE turns; turns 2 and 3 are entered through tail calls whose operator is the same variable, bound to a different procedure
     # each time (a state machine that tail-calls its parameter `next`): every pending call's operator is evaluated anew
     if not getattr(w.asp, "missing", False):
@@ -756,8 +786,13 @@ class Verdict:
         if "stuck" in d:
             ctx.undecided(self.rule, key, "abstract evaluation could not follow the evaluator on this case (%s)" % d["stuck"], self.where)
             return
-        self.decided += 1
         bad = [m for c, m in checks if not c]
+        if bad and contains(d.get("result"), lambda x: x is UNKNOWN or (isinstance(x, absint.Ptr) and absint.deref(x) is UNKNOWN)):
+            # the outcome holds a value the machine does not know (something on the way was not modelled): whatever failed to
+            # match may be that value — not evidence of anything
+            ctx.undecided(self.rule, key, "abstract evaluation produced an outcome with unknown parts (%r): %s" % (d.get("result"), bad[0][:120]), self.where)
+            return
+        self.decided += 1
         ctx.inst(self.rule, key, {"verdict": "ok" if not bad else bad[0][:80]})
         ctx.oblige(not bad)
         for i, m in enumerate(bad[:2]):
@@ -943,8 +978,10 @@ def rule_application(ctx, rule, aspects):
                 "accepted" if accepted else "rejected (%r)" % (res,))))
             if not d["accepts"]:
                 checks.append((_err_kind(res, "ArgumentMissMatch"), "the wrong argument count yields %r, expected Err(ArgumentMissMatch)" % (res,)))
-                checks.append((d["frames"] == 0 and not d["defines"] and not d["evals"],
-                               "a rejected application already created a frame / bound names / evaluated body forms"))
+                # (a frame of its own made, and parameters bound in it, before the count is found wrong is nothing a program can
+                # see: the frame is dropped.  Evaluating a form of the procedure, or binding anywhere else, is.)
+                checks.append((not d["evals"] and all(x[0] for x in d["defines"]),
+                               "a rejected application already evaluated a form of the procedure, or bound names outside a frame of its own"))
         if d["accepts"] and accepted:
             exp = _expected_defines(kind, k, d["args"])
             got = d["defines"]
@@ -1405,9 +1442,16 @@ def rule_trampoline(ctx, rule, aspects):
                 checks.append((len(ab) == 1 and isinstance(ab[0][2], list) and len(ab[0][2]) == 1 and ab[0][2][0] is d["args2"][0],
                                "a builtin reached through a tail call is not applied to the evaluated arguments"))
         if "arity" in aspects and second in ("user-arity", "self-arity"):
-            checks.append((len(au) == 1 and not ab, "a procedure reached through a tail call is applied although the argument count is wrong"))
-            checks.append((_err_kind(res, "ArgumentMissMatch"), "a tail call with the wrong argument count yields %r, expected "
-                           "Err(ArgumentMissMatch)" % (res,)))
+            rl = d.get("real")
+            if rl and "stuck" not in rl:
+                # (decided with the applying code followed: the count may be checked while the parameters are bound)
+                checks.append((not rl["second_body_evaluated"], "a procedure reached through a tail call runs its body although the argument count is wrong"))
+                checks.append((_err_kind(rl["result"], "ArgumentMissMatch"), "a tail call with the wrong argument count yields %r, expected "
+                               "Err(ArgumentMissMatch)" % (rl["result"],)))
+            else:
+                checks.append((len(au) == 1 and not ab, "a procedure reached through a tail call is applied although the argument count is wrong"))
+                checks.append((_err_kind(res, "ArgumentMissMatch"), "a tail call with the wrong argument count yields %r, expected "
+                               "Err(ArgumentMissMatch)" % (res,)))
         if "env" in aspects:
             checks.append((len(etc) == 1 and len(etc[0]) > 3 and etc[0][3] is d["tail_env"],
                            "the pending tail call's operator and operands are not evaluated in the environment the tail call carries"))
@@ -1659,7 +1703,11 @@ def application_is_sound(fb):
             continue                                  # only the arity rows bear on this verdict
         if "stuck" in d:
             return False, set()
-        if second in ("user-arity", "self-arity") and not (_err_kind(d["result"], "ArgumentMissMatch") and len(d["user_applications"]) == 1):
+        rl = d.get("real")
+        if rl and "stuck" not in rl:
+            if rl["second_body_evaluated"] or not _err_kind(rl["result"], "ArgumentMissMatch"):
+                good = False
+        elif second in ("user-arity", "self-arity") and not (_err_kind(d["result"], "ArgumentMissMatch") and len(d["user_applications"]) == 1):
             good = False
     return good, visited
 
